@@ -92,6 +92,9 @@ pub struct Stats {
     pub known_hits: BTreeMap<String, (u64, String)>,
     pub determinism_checked: u64,
     pub determinism_mismatch: Vec<u64>,
+    /// order-independent digest of every run of the batch (job, sub-run, what happened): equal
+    /// for equal (code, seed, tier, batch size) whatever the worker count or scheduling of workers
+    pub digest: u64,
 }
 
 const SIG_CAP: usize = 3_000_000;
@@ -138,6 +141,7 @@ impl Stats {
         }
         self.determinism_checked += o.determinism_checked;
         self.determinism_mismatch.extend(o.determinism_mismatch);
+        self.digest = self.digest.wrapping_add(o.digest);
     }
 }
 
@@ -444,6 +448,16 @@ impl<'a> JobCtx<'a> {
         st.client_bytes += out.w.wire_delivered;
         st.server_bytes += out.w.wire_written;
         *st.ends.entry(out.end.class()).or_insert(0) += 1;
+        st.digest = st.digest.wrapping_add(rng::mix(&[
+            self.job,
+            self.sub as u64,
+            out.w.op,
+            out.w.wire_delivered,
+            out.w.wire_written,
+            out.w.callbacks.len() as u64,
+            out.w.answered as u64,
+            rng::fnv(out.end.class().as_bytes()),
+        ]));
         let nontrivial = out.w.callbacks.len() > 1 || out.w.answered > 1 || out.w.fault_fired.is_some() || out.model.hostile;
         if nontrivial {
             st.nontrivial += 1;
